@@ -46,12 +46,29 @@ KNOWN_DIVERGENT = ""
 
 # ----------------------------------------------------------------------------------------- controlled registry
 
+_CLEAR_VIA = [0]
+
+
+def _clear_registry():
+    """`clear_registry()` is a classmethod.  It is called through `Source` (which is what empties the one registry table);
+    before that, in turn, also through one of the subclasses -- on the unchanged library such a call only leaves an unused
+    attribute on the subclass and the registry as it was, so the sequence is equivalent to the plain call"""
+    import pyoak.origin as _o
+    classes = [Source] + [getattr(_o, n) for n in ("MemoryTextSource", "TextSource", "FileSource", "SourceSet", "TextFileSource")
+                          if isinstance(getattr(_o, n, None), type) and issubclass(getattr(_o, n), Source)]
+    _CLEAR_VIA[0] += 1
+    via = classes[_CLEAR_VIA[0] % len(classes)]
+    if via is not Source:
+        via.clear_registry()
+    Source.clear_registry()
+
+
 @contextmanager
 def controlled_registry():
     """run the body against an empty real source registry; the previous registry objects are put back afterwards"""
     saved_sources = Source._sources
     saved_idx = Source._source_idx_to_source
-    Source.clear_registry()
+    _clear_registry()
     try:
         yield
     finally:
@@ -526,10 +543,10 @@ def origin_scenario(rng: random.Random, kind: str | None) -> list[Case]:
             out.append(dec_case(d_opt, origin, True, "idx form, same registry"))
         # 2a. full form into an empty registry: new sources (no payload) and derived sets get registered
         if d_full is not None:
-            Source.clear_registry()
+            _clear_registry()
             out.append(dec_case(d_full, origin, True, "full form, empty registry"))
         # 2b. a registry where == sources with other payloads (and possibly unrelated ones) are registered
-        Source.clear_registry()
+        _clear_registry()
         alts = [alt_spec(rng, sp) for sp in leaf_specs]
         if rng.random() < 0.5:
             alts.append(rand_leaf_spec(rng))
@@ -544,7 +561,7 @@ def origin_scenario(rng: random.Random, kind: str | None) -> list[Case]:
             out.append(dec_case(d_opt, origin, False, "idx form, ANOTHER registry (indexes mean something else)"))
         # 3. optimized encoding when nothing is registered
         if rng.random() < 0.3 or kind in ("code", "multi-diff", "base-sourceset"):
-            Source.clear_registry()
+            _clear_registry()
             c, _ = enc_case(origin, True, " (registry cleared after construction)")
             out.append(c)
     return out
@@ -627,7 +644,7 @@ def source_scenario(rng: random.Random, kind: str) -> list[Case]:
         mode = rng.choice(["registered", "registered", "registered", "twin", "unregistered"])
         if mode == "unregistered":
             target = build_source(spec)
-            Source.clear_registry()
+            _clear_registry()
             for sp in others:
                 build_source(sp)
         elif mode == "twin":
@@ -651,10 +668,10 @@ def source_scenario(rng: random.Random, kind: str) -> list[Case]:
         if d_opt is not None:
             out.append(decsrc_case(d_opt, "idx form, same registry", target))
         if d_full is not None:
-            Source.clear_registry()
+            _clear_registry()
             out.append(decsrc_case(d_full, "full form, empty registry", target))
             if rng.random() < 0.6:
-                Source.clear_registry()
+                _clear_registry()
                 alts = [alt_spec(rng, l) for l in leaves_of(spec)] + [rand_leaf_spec(rng)]
                 rng.shuffle(alts)
                 for sp in alts[:rng.randint(1, len(alts))]:
@@ -784,7 +801,7 @@ def registry_scenario(rng: random.Random) -> list[Case]:
         if dicts is None:
             return out
         # load into an empty registry: indexes are preserved
-        Source.clear_registry()
+        _clear_registry()
         line = dumps([A("oc-load"), enc_reg([])] + [enc_j(x) for x in dicts])
         real, _ = outcome(lambda: Source.load_serialized_sources(dicts) or True, lambda r: [enc_reg()])
         fail = None
@@ -808,7 +825,7 @@ def registry_scenario(rng: random.Random) -> list[Case]:
                         f"clear_registry; load_serialized_sources(all_as_dict()) originals={originals!r}", oracle_fail=fail,
                         sig=SIG + "registry"))
         # load into a non-empty registry: indexes shift (model agreement only)
-        Source.clear_registry()
+        _clear_registry()
         if rng.random() < 0.35 and leaves_of(specs[-1]):
             first = alt_spec(rng, rng.choice(leaves_of(specs[-1])))     # == one of the loaded sources
         else:
@@ -895,7 +912,7 @@ def twin_registry_scenario(rng: random.Random, kind: str) -> list[Case]:
             out.append(c)
             encoded.append((o, d))
         # the fresh process: empty registry, load the table
-        Source.clear_registry()
+        _clear_registry()
         line = dumps([A("oc-load"), enc_reg([])] + [enc_j(x) for x in dicts])
         real, _ = outcome(lambda: Source.load_serialized_sources(dicts) or True, lambda r: [enc_reg()])
         loaded = registry()
@@ -936,7 +953,7 @@ def illordered_scenario(rng: random.Random) -> list[Case]:
         kinds = rng.sample(LEAF_KINDS, 3)
         sa, sb, sc = (rand_leaf_spec(rng, k) for k in kinds)
         c = build_source(sc)
-        Source.clear_registry()
+        _clear_registry()
         build_source(sa)
         b = build_source(sb)
         O.SourceSet((b, c))
@@ -948,7 +965,7 @@ def illordered_scenario(rng: random.Random) -> list[Case]:
                         sig=SIG + "registry-illordered"))
         if dicts is None:
             return out
-        Source.clear_registry()
+        _clear_registry()
         line = dumps([A("oc-load"), enc_reg([])] + [enc_j(x) for x in dicts])
         real, _ = outcome(lambda: Source.load_serialized_sources(dicts) or True, lambda r: [enc_reg()])
         loaded = registry()
@@ -962,15 +979,20 @@ def illordered_scenario(rng: random.Random) -> list[Case]:
                         f"{what}; clear_registry; load_serialized_sources(all_as_dict()) originals={originals!r} "
                         f"loaded={loaded!r}", sig=SIG + "registry-illordered"))
         # and an origin over c written in idx form before, read after the reload
-        Source.clear_registry()
+        _clear_registry()
         for s in originals:
             type(s).__post_init__(s)          # re-register the very instances, in the original (ill) order
+        if len(originals) < 4:
+            out.append(Case("oc:registry-illordered", None, None, True,
+                            f"the registry lists {len(originals)} sources after 4 were constructed: {originals!r}",
+                            oracle_fail="a constructed source is missing from the registry listing", sig=SIG + "registry-illordered"))
+            return out
         o = O.XMLFileOrigin(originals[3], O.XMLPath("/r"))
         c_enc, d = enc_case(o, True, " (ill-ordered registry)")
         c_enc.kind, c_enc.sig = "oc:registry-illordered", SIG + "registry-illordered"
         out.append(c_enc)
         if d is not None:
-            Source.clear_registry()
+            _clear_registry()
             Source.load_serialized_sources(dicts)
             c_dec = dec_case(d, o, False, "idx form written in the ill-ordered registry, read after reloading all_as_dict()")
             r = None
